@@ -158,7 +158,7 @@ def coding_objects(layer) -> List[Tuple[Any, Any, str]]:
     return out
 
 
-def build_corpus() -> None:
+def build_corpus(ascii_tails: bool = False) -> None:
     """Valid PDUs per layer: encode with defaults where possible, else decode-guided
     random search (every successful decode yields a valid PDU).  Fixed seed."""
     DecodeError = STATE["DecodeError"]
@@ -197,6 +197,9 @@ def build_corpus() -> None:
                     tries += 1
                     tail = bytes(r.getrandbits(8) if r.random() < 0.6 else r.choice([0, 1, 2, 3, 0x41, 255])
                                  for _ in range(r.randint(0, 12)))
+                    if ascii_tails:
+                        # C17: the corpus must not depend on how invalid strings are treated
+                        tail = bytes(b & 0x7F for b in tail)
                     pdu = prefix + tail
                     try:
                         co.decode(pdu)
